@@ -142,6 +142,7 @@ func runC07(c *Ctx) {
 	c.Rule("C07-R6", "file-level disables flow through Entry.DisabledChecks into isEnabled", 4)
 	defer c07CommentDecisionFirst(c)
 	defer c07NodeComments(c)
+	defer c07ValueTrimmed(c)
 
 	writer := c07WriterTable(c)
 	for _, k := range sortedKeys(writer) {
@@ -931,4 +932,44 @@ func c07NodeComments(c *Ctx) {
 				"node."+sites[i].field+" and node."+sites[j].field+" are carried over in mutually exclusive arms: when the rule node has both, only one survives — `- {alert: a, expr: e} # pint disable X` loses its control comment as soon as any comment stands on the line above")
 		}
 	}
+}
+
+// c07ValueTrimmed: file-level control comments are read from raw source lines,
+// which in a CRLF file end in "\r". The value text handed to parseValue is
+// therefore trimmed of ALL trailing white space (strings.TrimSpace, or a
+// Trim/TrimRight whose cutset contains "\r"); otherwise every `file/disable X`
+// in a file with Windows line endings names the check "X\r" and disables nothing.
+func c07ValueTrimmed(c *Ctx) {
+	pc := c.MustFunc("C07-R1", "internal/comments.parseComment")
+	if pc == nil {
+		return
+	}
+	info := pc.Pkg.TypesInfo
+	n := 0
+	ast.Inspect(pc.Decl.Body, func(nd ast.Node) bool {
+		call, ok := nd.(*ast.CallExpr)
+		if !ok || !isCallTo(info, call, "internal/comments.parseValue") || len(call.Args) < 2 {
+			return true
+		}
+		n++
+		ok2, got := false, exprStr(call.Args[1])
+		if tc, isCall := ast.Unparen(call.Args[1]).(*ast.CallExpr); isCall {
+			if fn := Callee(info, tc); fn != nil && fn.Pkg() != nil && fn.Pkg().Path() == "strings" {
+				switch fn.Name() {
+				case "TrimSpace":
+					ok2 = true
+				case "Trim", "TrimRight":
+					if len(tc.Args) == 2 {
+						if cut, isC := constString(info, tc.Args[1]); isC && strings.Contains(cut, "\r") {
+							ok2 = true
+						}
+					}
+				}
+			}
+		}
+		c.Check(ok2, "C07-R1", "parseComment:value text is trimmed of all trailing white space", call.Pos(), "strings.TrimSpace",
+			"the value of a control comment is passed on as `"+got+"`: a trailing carriage return survives, so in a CRLF file `# pint file/disable promql/rate` names the check \"promql/rate\\r\" and suppresses nothing")
+		return true
+	})
+	c.Check(n >= 1, "C07-R1", "parseComment:hands the value to parseValue", pc.Decl.Pos(), itoa(n), "no parseValue call found")
 }
